@@ -103,8 +103,8 @@ theorem entity_death_releases (s : St) (e : Nat) (l : List (RType × Handle)) (h
 
 /-- A despawn reaction owns the clone it took from the table until its run (or abort) has finished: `cleanup` drops it. -/
 theorem despawn_reaction_releases (s : St) (src : Nat) (h : Handle) (hc : s.trkDsp.curHandle = some h) :
-    (cleanupK s (.dspReact src)).trkDsp.curHandle = none ∧
-    (cleanupK s (.dspReact src)).arcRc = (dropHandle { s with trkDsp := { s.trkDsp with reacting := false, curHandle := none } } h).arcRc := by
+    (cleanupK s (.dspReact src h)).trkDsp.curHandle = none ∧
+    (cleanupK s (.dspReact src h)).arcRc = (dropHandle { s with trkDsp := { s.trkDsp with reacting := false, curHandle := none } } h).arcRc := by
   simp [cleanupK, hc]
 
 example : (dropHandle ({ arcRc := fun _ => 1, arcEnt := fun _ => 9 } : St) ⟨9, some 0⟩).autoChan = [9] :=
